@@ -21,7 +21,7 @@ func init() {
 		ID: "C17", Level: "exploration", DesignRef: "DESIGN.md section 4 C17",
 		Rule: "one case = one scenario (seed, start genome, options, NewPopulation or NewPopulationRandom, 20-40 epochs, sequential executor, " +
 			"fitness a deterministic function of the genome snapshot): the per-epoch hashes of the serialised population (all genomes " +
-			"bit-exact, species ids / ages / sizes, innovation and node counters) are compared between (a) two runs in this process, the " +
+			"bit-exact, species ids / ages / sizes, innovation and node counters) are compared between (a0) two runs on the very same start genome / options objects, which must come back unmodified, (a) two runs in this process, the " +
 			"second after unrelated work (another evolution under a different seed, 64 MB of allocations, a GC) and (b) two runs in " +
 			"separate processes, one of them under GOGC=1 GOMAXPROCS=1. evaluations = epochs compared. A scenario is non-trivial if the " +
 			"final population has >= 2 species and a genome with a hidden node; distinct by final hash.",
@@ -33,7 +33,7 @@ func init() {
 			return 1920
 		},
 		Run:        runC17,
-		Required:   []string{"runs.in_process", "runs.cross_process", "scenarios.random_population", "scenarios.spawned", "epochs.compared"},
+		Required:   []string{"runs.in_process", "runs.same_input_objects", "runs.cross_process", "scenarios.random_population", "scenarios.spawned", "epochs.compared"},
 		TimeoutSec: func(tier string) int { return 7200 },
 	})
 }
@@ -187,9 +187,34 @@ func firstDiff(a, b []string) int {
 
 func runC17(c *Ctx, idx int) {
 	sc, libSeed := c17Scenario(c.Seed, idx)
+	var startBefore *SnapGenome
+	if sc.Start != nil {
+		startBefore = snapGenome(sc.Start)
+	}
 	first := c17Execute(sc, libSeed)
 	detail := func() map[string]interface{} {
 		return map[string]interface{}{"scenario": sc.brief(), "library_seed": libSeed}
+	}
+	// the same inputs once more, this time the very same start genome and options objects (as Experiment.Execute hands one
+	// start genome to every trial): a run must not leave anything behind in its inputs
+	if sc.Ctor == ctorSpawn && first.errText == "" {
+		if d := diffGenomes(startBefore, snapGenome(sc.Start)); d != "" {
+			c.Violate("inputs-modified", detail(), "the run modified the start genome it was given: %s", d)
+			return
+		}
+		again := c17Execute(sc, libSeed)
+		c.Count("runs.same_input_objects", 1)
+		if again.errText != first.errText {
+			c.Violate("in-process/error", detail(), "the first run ended with %q, the run on the same input objects with %q", first.errText, again.errText)
+			return
+		}
+		if d := firstDiff(first.hashes, again.hashes); d >= 0 {
+			dd := detail()
+			dd["first_run"] = first.hashes
+			dd["second_run"] = again.hashes
+			c.Violate("in-process/same-inputs", dd, "a second run on the same start genome and options objects diverges from the first one at epoch %d", d)
+			return
+		}
 	}
 	if first.errText != "" {
 		if first.errText == "gene-less random genome" {
